@@ -302,7 +302,7 @@ prop("C16",
      level_note=WEB_NOTE + " 'Eventually stored' is decided as bounded progress (ended-but-unstored for 1500 polls).",
      rule=("cases = submitted codes (n<=5 quick, <=6 thorough; 1 in 6 malformed) with the full request history; "
            "non-trivial = code with >=2 complete models or a malformed code; distinct by code hash"),
-     quick=dict(cases=14, shards=8),
+     quick=dict(cases=40, shards=8),
      thorough=dict(cases=150, shards=8, timeout=3000),
      )
 
@@ -320,6 +320,6 @@ prop("C17",
      level_note=WEB_NOTE + " Interleavings are those produced by threads, think times and injected delays, not an enumeration.",
      rule=("cases = concurrent histories (2-3 users x 24-40 steps); non-trivial = >=2 users were active and >=10 requests "
            "were made; distinct by hash of the (user, operation, status) sequence; evidence counts distinct DB command interleavings"),
-     quick=dict(cases=10, shards=8),
+     quick=dict(cases=30, shards=8),
      thorough=dict(cases=120, shards=8, timeout=3000),
      )
